@@ -7,6 +7,7 @@ package tfs
 
 import (
 	"io"
+	"sync/atomic"
 	"os"
 	"path/filepath"
 	"sort"
@@ -64,6 +65,10 @@ type FS struct {
 	// listings and stats included) return an error once; Calls counts them.
 	FailCall int
 	Calls    int
+	// SyncDelay makes every Sync take this long (outside the file system's own lock), as an fsync
+	// on a real device does: windows that exist only while a flush is in progress become reachable.
+	SyncDelay time.Duration
+	syncCount int64
 }
 
 // New returns an empty file system.
@@ -707,6 +712,12 @@ func (f *file) Stat() (os.FileInfo, error) {
 }
 
 func (f *file) Sync() error {
+	if d := f.t.SyncDelay; d > 0 {
+		// every other flush is slow (latency of a device varies from call to call)
+		if atomic.AddInt64(&f.t.syncCount, 1)%2 == 0 {
+			time.Sleep(d)
+		}
+	}
 	f.t.mu.Lock()
 	defer f.t.mu.Unlock()
 	if f.closed {
